@@ -21,7 +21,8 @@ type vPipeEnd struct {
 	buf       []byte
 	closed    bool
 	peer      *vPipeEnd
-	delivered int // bytes written by this end
+	delivered int    // bytes written by this end
+	owner     uint64 // node id holding this end (cluster harnesses; 0 = unknown)
 }
 
 func vPipe() (*vPipeEnd, *vPipeEnd) {
@@ -276,12 +277,13 @@ type vCluster struct {
 	srv   map[uint64]*server
 	dial  map[uint64]dialFn
 	down  map[uint64]bool
+	cut   map[uint64]bool // isolated nodes: no dial from or to them succeeds
 }
 
 var vClusterDirs = map[uint64]string{1: vDir, 2: vDirF, 3: "/ghostG"}
 
 func vNewCluster() *vCluster {
-	return &vCluster{nodes: map[uint64]*Raft{}, logs: map[uint64]*vAbsLog{}, srv: map[uint64]*server{}, dial: map[uint64]dialFn{}, down: map[uint64]bool{}}
+	return &vCluster{nodes: map[uint64]*Raft{}, logs: map[uint64]*vAbsLog{}, srv: map[uint64]*server{}, dial: map[uint64]dialFn{}, down: map[uint64]bool{}, cut: map[uint64]bool{}}
 }
 
 func (c *vCluster) add(nid uint64, ents []*entry, term, votedFor, commit uint64) *Raft {
@@ -297,10 +299,15 @@ func (c *vCluster) wire() {
 		c.srv[id], c.dial[id] = vServe(c.nodes[id])
 	}
 	for _, id := range c.ids {
+		from := id
 		c.nodes[id].dialFn = func(network, address string, timeout time.Duration) (net.Conn, error) {
 			for _, pid := range c.ids {
-				if address == vAddr(int(pid)) && !c.down[pid] {
-					return c.dial[pid](network, address, timeout)
+				if address == vAddr(int(pid)) && !c.down[pid] && !c.cut[pid] && !c.cut[from] {
+					conn, err := c.dial[pid](network, address, timeout)
+					if pe, ok := conn.(*vPipeEnd); ok {
+						pe.owner, pe.peer.owner = from, pid
+					}
+					return conn, err
 				}
 			}
 			return nil, vIOError{"dial: connection refused"}
@@ -768,3 +775,82 @@ func VH_C09_cluster2_install() {
 
 //verif:check C04,C17 tier=thorough sched=coop+1 maxsteps=400000 onunwind=violation stubs=rt,timers,valuefile,abslog onblock=violation reach=caught-up,client-update-done,closed,end desc="as VH_C04_cluster2_catchup under every goroutine schedule that differs from round robin in at most one hand-over" bounds="as VH_C04_cluster2_catchup; schedules within 1 deviation from round robin" maxdec=4000
 func VH_C04_cluster2_catchup_sched1() { VH_C04_cluster2_catchup() }
+
+// isolate cuts node id off: its open connections are closed at both ends and no dial from or to it succeeds until heal.
+func (c *vCluster) isolate(id uint64) {
+	c.cut[id] = true
+	for _, pe := range vPipes {
+		if pe.owner == id || pe.peer.owner == id {
+			_ = pe.Close()
+		}
+	}
+}
+
+func (c *vCluster) heal(id uint64) { c.cut[id] = false }
+
+//verif:check C17,C02,C04,C07,C01 sched=coop maxsteps=2000000 onunwind=violation stubs=rt,timers,valuefile,abslog onblock=violation reach=isolated,new-leader,healed,closed,end desc="three real nodes through a partition and its repair: the leader is cut off, accepts a client update it cannot commit, another node times out and is elected by the remaining majority and commits its no-op; after the network heals the old leader hears from the new one, steps down, loses its uncommitted entry and fails the client task with a not-leader error flagged as lost; at the end exactly one leader, equal logs, equal commit indexes, the lost update was applied by no state machine and the committed history of before the partition is intact everywhere" bounds="3 voters, logs of 3 entries; one partition of the leader, one election timeout, one repair; quorum wait long enough for the stale leader to keep its role; round-robin goroutine schedule"
+func VH_C17_cluster3_partition_heal() {
+	cfgE := vClusterConfig().encode()
+	cfgE.index, cfgE.term = 1, 1
+	e2 := &entry{index: 2, term: 1, typ: entryUpdate, data: vBytes("payload2", 1)}
+	e3 := &entry{index: 3, term: 2, typ: entryUpdate, data: vBytes("payload3", 1)}
+	c := vNewCluster()
+	for id := uint64(1); id <= 3; id++ {
+		r := c.add(id, []*entry{cfgE, e2, e3}, 3, 1, 2)
+		r.quorumWait = time.Hour
+	}
+	L := c.nodes[1]
+	L.state, L.leader = Leader, 1
+	c.wire()
+	c.start(1)
+	lost := &newEntry{task: newTask(), entry: &entry{typ: entryUpdate, data: vBytes("lost.cmd", 1)}}
+	step := 0
+	vSetIdleHook(func() {
+		switch step {
+		case 0:
+			vAssert(L.state == Leader && L.commitIndex == 4 && c.nodes[2].commitIndex == 4 && c.nodes[3].commitIndex == 4, "H-settled")
+			c.isolate(1)
+			vOffer(L.newEntryCh, lost)
+			vReach("isolated")
+		case 1:
+			vAssert(L.state == Leader && L.lastLogIndex == 5 && L.commitIndex == 4, "H-isolated-leader-accepts-but-cannot-commit")
+			vAssert(!isClosed(lost.Done()), "H-uncommitted-update-is-not-answered")
+			vAssert(vFire(c.nodes[2].timer), "H-follower-election-timer-armed")
+		case 2:
+			N := c.nodes[2]
+			vAssert(N.state == Leader && N.term == 4, "H-majority-side-elects-a-leader")
+			vAssert(N.commitIndex == 5 && c.nodes[3].commitIndex == 5, "H-new-leader-commits-its-no-op-with-the-majority")
+			vAssert(L.state == Leader && L.term == 3, "H-stale-leader-still-isolated")
+			vReach("new-leader")
+			c.heal(1)
+			// the new leader's replication for node 1 is backing off: its timer elapses
+			vAssert(vFire(N.ldr.repls[1].timer), "H-replication-to-the-isolated-node-is-backing-off")
+			vReach("healed")
+		case 3:
+			N := c.nodes[2]
+			vAssert(L.state == Follower && L.term == 4 && L.leader == 2, "H-old-leader-steps-down-and-follows")
+			vAssert(isClosed(lost.Done()), "H-lost-update-task-completes")
+			nle, ok := lost.Err().(NotLeaderError)
+			vAssert(ok && nle.Lost, "H-lost-update-fails-as-not-leader-with-lost-flag")
+			leaders := 0
+			for _, id := range c.ids {
+				r := c.nodes[id]
+				if r.state == Leader {
+					leaders++
+				}
+				vAssert(r.lastLogIndex == N.lastLogIndex && vLogsEqual(c.logs[2], c.logs[id], N.lastLogIndex), "H-logs-converge")
+				vAssert(r.commitIndex == N.commitIndex, "H-commit-indexes-converge")
+				f := r.fsm.FSM.(*vFSM)
+				vAssert(len(f.updates) == 2 && bytes.Equal(f.updates[0], e2.data) && bytes.Equal(f.updates[1], e3.data), "H-lost-update-applied-nowhere-and-history-intact")
+			}
+			vAssert(leaders == 1, "H-exactly-one-leader")
+			vAssert(bytes.Equal(c.logs[1].ents[1], vEncodeEntry(e2)) && bytes.Equal(c.logs[1].ents[2], vEncodeEntry(e3)), "H-committed-prefix-untouched")
+			c.closeAll()
+		}
+		step++
+	})
+	L.stateLoop()
+	vReach("closed")
+	vAssert(step >= 4, "script-completed")
+	vReach("end")
+}
